@@ -496,6 +496,51 @@ func (fr *Frame) mergeStates(ins []*State) *State {
 
 // ---- loops -------------------------------------------------------------------------------
 
+// rangeInvariant: for the loops go/ssa builds for "range" over a slice, string or integer, the hidden index cell
+// satisfies -1 <= rangeindex < len. It is added to the user's invariants (and proved like them).
+func (fr *Frame) rangeInvariant(li *loopInfo, st *State) string {
+	h := li.header
+	if h.Comment != "rangeindex.loop" || len(h.Instrs) < 4 {
+		return ""
+	}
+	ld, ok := h.Instrs[0].(*ssa.UnOp)
+	if !ok {
+		return ""
+	}
+	a, ok := ld.X.(*ssa.Alloc)
+	if !ok {
+		return ""
+	}
+	var lenV ssa.Value
+	for _, in := range h.Instrs {
+		if b, ok := in.(*ssa.BinOp); ok && b.Op == token.LSS {
+			lenV = b.Y
+		}
+	}
+	if lenV == nil {
+		return ""
+	}
+	c := fr.cells[a]
+	if c == nil {
+		return ""
+	}
+	cur, live := st.cells[c]
+	if !live {
+		return ""
+	}
+	lv, ok := fr.regs[lenV]
+	if !ok {
+		if cst, isC := lenV.(*ssa.Const); isC {
+			lv = fr.g.constVal(cst)
+		} else {
+			return ""
+		}
+	}
+	g := fr.g
+	intT := types.Typ[types.Int]
+	return and(g.intCmp("<=", g.S.intConst(-1, 64), cur, intT), g.intCmp("<", cur, lv.S, intT))
+}
+
 func (fr *Frame) enterLoop(li *loopInfo, st *State) *State {
 	g := fr.g
 	if !fr.top {
@@ -509,6 +554,9 @@ func (fr *Frame) enterLoop(li *loopInfo, st *State) *State {
 	}
 	fr.analyseLoopMods(li)
 	// 1. invariants hold on entry
+	if ri := fr.rangeInvariant(li, st); ri != "" {
+		g.oblige("inv0", fmt.Sprintf("L%d.range", li.ord), st.path, ri, "range loop index is within -1..len-1 (entry)")
+	}
 	for i, inv := range li.spec.Invariants {
 		t := fr.evalBool(inv.Expr, &specCtx{fr: fr, st: st, old: fr.entry, kind: ctxInv})
 		g.oblige("inv0", fmt.Sprintf("L%d.%d", li.ord, i+1), st.path, t, "loop "+fmt.Sprint(li.ord)+" invariant (entry): "+inv.Text)
@@ -577,6 +625,9 @@ func (fr *Frame) enterLoop(li *loopInfo, st *State) *State {
 		g.assumeUnder(ns.path, fr.frameFormula(ns))
 	}
 	// 4. assume invariants
+	if ri := fr.rangeInvariant(li, ns); ri != "" {
+		g.assumeUnder(ns.path, ri)
+	}
 	for _, inv := range li.spec.Invariants {
 		t := fr.evalBool(inv.Expr, &specCtx{fr: fr, st: ns, old: fr.entry, kind: ctxInv})
 		g.assumeUnder(ns.path, t)
@@ -637,6 +688,9 @@ func (fr *Frame) closeLoop(li *loopInfo, st *State) {
 	g := fr.g
 	if fr.con != nil && fr.con.HasAssigns {
 		g.oblige("frame", fmt.Sprintf("L%d", li.ord), st.path, fr.frameFormula(st), "assigns clause holds after every loop iteration")
+	}
+	if ri := fr.rangeInvariant(li, st); ri != "" {
+		g.oblige("inv", fmt.Sprintf("L%d.range", li.ord), st.path, ri, "range loop index is within -1..len-1 (preserved)")
 	}
 	for i, inv := range li.spec.Invariants {
 		t := fr.evalBool(inv.Expr, &specCtx{fr: fr, st: st, old: fr.entry, kind: ctxInv})
